@@ -477,6 +477,7 @@ type tableGen struct {
 	victims []int
 	length  int
 	small   []int // pool indices of a distance class with exactly 3, 4 or 5 ids (the 5-failures rule at the bucketSize/4 boundary)
+	repfull int   // number of ids of the big distance class (pool indices 1..repfull): fill its bucket and its replacement list, then offer newcomers; 0 = off
 	credit  int   // pool index of an entry that is revalidated repeatedly: answered pings build up credit, then unanswered ones; 0 = none
 	alive   int   // credit scenario: answered pings still to deliver before the unanswered ones
 	dead    int
@@ -607,6 +608,52 @@ func (g *tableGen) next(step int, s portalwire.VerifSnapshot) (tableOp, bool) {
 			return tableOp{kind: 'T', n: n, flag: ok, picks: []int{pick()}}, true
 		}
 	}
+	if g.repfull > 0 && r.Intn(100) < 60 {
+		// full bucket + full replacement list whose oldest member has a public address, then newcomers that the IP
+		// check refuses (no address) or admits: the oldest replacement's address is released exactly when it is dropped
+		var bk *portalwire.VerifBucket
+		used := map[int]bool{}
+		for i := range s.Buckets {
+			for _, e := range append(append([]portalwire.VerifEntry{}, s.Buckets[i].Entries...), s.Buckets[i].Replacements...) {
+				ix := h.index[e.ID]
+				used[ix] = true
+				if ix >= 1 && ix <= g.repfull {
+					bk = &s.Buckets[i]
+				}
+			}
+		}
+		free := -1
+		for ix := 1; ix <= g.repfull; ix++ {
+			if !used[ix] {
+				free = ix
+				break
+			}
+		}
+		if free > 0 {
+			n := tblNode{idx: free, seq: 1, hasIP: true, ip: [4]byte{10, 0, 4, byte(free)}, port: 30303}
+			switch {
+			case bk == nil || len(bk.Entries) < 16:
+				g.c.Count("repfull_fill_entries")
+			case len(bk.Replacements) == 0:
+				n.ip = [4]byte{8, 8, 9, byte(free)}
+				g.c.Count("repfull_first_replacement_public")
+			case len(bk.Replacements) < 10:
+				g.c.Count("repfull_fill_replacements")
+			default:
+				switch r.Intn(4) {
+				case 0, 1:
+					n.hasIP = false
+					g.c.Count("repfull_newcomer_refused")
+				case 2:
+					n.ip = [4]byte{1, 2, 3, byte(free)}
+					g.c.Count("repfull_newcomer_public")
+				default:
+					g.c.Count("repfull_newcomer_lan")
+				}
+			}
+			return tableOp{kind: 'F', n: n, flag: r.Intn(2) == 0}, true
+		}
+	}
 	if g.credit > 0 && r.Intn(100) < 55 {
 		// the liveness-credit scenario: the same entry answers several pings in a row (credit 3, 4, 5, ..), then stops
 		// answering: the credit must go c -> c/3 -> .. -> 0 and the entry must leave at 0
@@ -619,13 +666,28 @@ func (g *tableGen) next(step int, s portalwire.VerifSnapshot) (tableOp, bool) {
 			}
 		}
 		inFlight := false
+		stale := false // a request for the node that was removed meanwhile is still unanswered
 		var startSeq uint64
 		for _, a := range s.Active {
 			if h.index[a.ID] == g.credit && a.Attached {
 				inFlight, startSeq = true, a.StartSeq
 			}
+			if h.index[a.ID] == g.credit && !a.Attached {
+				stale, startSeq = true, a.StartSeq
+			}
 		}
 		switch {
+		case stale && r.Intn(10) < 7:
+			// the late answer for a node that is not in the table (or was re-added meanwhile)
+			g.c.Count(fmt.Sprintf("credit_late_answer_present%v", ce != nil))
+			if r.Intn(2) == 0 {
+				return tableOp{kind: 'P', idx: g.credit, flag: r.Intn(2) == 0, pingSeq: startSeq, picks: []int{pick()}}, true
+			}
+			return tableOp{kind: 'A', idx: g.credit, flag: r.Intn(2) == 0, picks: []int{pick()}}, true
+		case ce != nil && inFlight && r.Intn(6) == 0:
+			// remove the node while its ping is in flight
+			g.c.Count("credit_delete_in_flight")
+			return tableOp{kind: 'D', idx: g.credit, picks: []int{pick()}}, true
 		case ce == nil:
 			if r.Intn(2) == 0 {
 				g.c.Count("credit_add")
@@ -926,7 +988,11 @@ func newTableHist(c *Ctx) (*tableHist, *tableGen) {
 		g.focus = 1 + r.Intn(2) // the first ids of the pool are in the most populated distance class
 		c.Count("focus_history")
 	}
-	if len(small) == 0 && len(h.pool) > 4 && r.Intn(5) < 2 {
+	if shape == 0 && r.Intn(2) == 0 {
+		g.repfull = 34
+		g.focus = 0
+		c.Count("repfull_history")
+	} else if len(small) == 0 && len(h.pool) > 4 && r.Intn(5) < 2 {
 		g.credit, g.alive, g.dead = 3, 3+r.Intn(3), 2
 		c.Count("credit_history")
 	}
